@@ -2,6 +2,7 @@ package main
 
 import (
 	"fmt"
+	"strings"
 
 	"golang.org/x/tools/go/ssa"
 )
@@ -250,8 +251,12 @@ func (c *Checker) checkCRCEmitters() {
 				continue
 			}
 			for _, st := range []int{0, 3} {
+				d := c.s35CRCCase(sh, st)
+				if strings.HasPrefix(d, "skip: ") {
+					continue
+				}
 				n++
-				if d := c.s35CRCCase(sh, st); d != "" {
+				if d != "" {
 					bad++
 					if first == "" {
 						first = fmt.Sprintf("%s, %d alignment_stuffing bytes: %s", sh.name, st, d)
